@@ -3,7 +3,7 @@
 ID = 'C05'
 LEVEL = 'exploration'
 QUICK_S = 45
-THOROUGH_S = 600
+THOROUGH_S = 300
 TECHNIQUE = ('runtime monitoring: navigation API results (by object identity) compared with a traversal of the generated model '
              'tree kept by the harness; user classes with hostile dunder methods (__len__/__bool__/__eq__/__slots__)')
 RULE = ('models are generated as trees by the harness (recursive blocks, single-valued and list containment typed by an '
@@ -329,7 +329,7 @@ def hash_name(s):
 
 
 def run(ctx):
-    for i in ctx.indices(3000 if ctx.tier == 'quick' else 20000, 'random'):
+    for i in ctx.indices(3000 if ctx.tier == 'quick' else 10 ** 7, 'random'):
         one(ctx, i)
 
 
